@@ -356,9 +356,10 @@ func (vc *FnVC) closureAxiom(comp, name string) {
 		// cardinality: a map with a key is not empty (entry heap)
 		_, inner := arrayParts(vc.compSort[comp])
 		ks, _ := arrayParts(inner)
-		vc.regComp("ML", arraySort(sInt, sInt))
-		vc.enc.declConst("ML!e0", arraySort(sInt, sInt))
-		vc.enc.header = append(vc.enc.header, "(assert (forall ((r Int) (k "+ks+")) (! (=> (select (select "+name+" r) k) (> (select ML!e0 r) 0)) :pattern ((select (select "+name+" r) k)))))")
+		ml := mlOf(comp)
+		vc.regComp(ml, arraySort(sInt, sInt))
+		vc.enc.declConst(ml+"!e0", arraySort(sInt, sInt))
+		vc.enc.header = append(vc.enc.header, "(assert (forall ((r Int) (k "+ks+")) (! (=> (select (select "+name+" r) k) (> (select "+ml+"!e0 r) 0)) :pattern ((select (select "+name+" r) k)))))")
 		return
 	}
 	t := vc.compValType[comp]
@@ -663,9 +664,13 @@ func (vc *FnVC) mapComps(m *types.Map) (mh, mv, ks, vs string) {
 	vc.compValType[mv] = m.Elem()
 	vc.regComp(mh, arraySort(sInt, arraySort(ks, sBool)))
 	vc.regComp(mv, arraySort(sInt, arraySort(ks, vs)))
-	vc.regComp("ML", arraySort(sInt, sInt))
+	vc.regComp(mlOf(mh), arraySort(sInt, sInt))
 	return
 }
+
+// mlOf: the element-count component of the maps whose key-set component is mh (one per map type,
+// like the key-set and value components, so that frames separate what Go's types separate).
+func mlOf(mh string) string { return "ML" + mh[2:] }
 
 func (vc *FnVC) globalComp(g *ssa.Global) (comp, sort string) {
 	t := g.Type().(*types.Pointer).Elem()
@@ -752,8 +757,8 @@ func (vc *FnVC) typeInv(st *State, v string, t types.Type) string {
 	case *types.Pointer:
 		return "(<= " + v + " " + vc.alloc(st) + ")"
 	case *types.Map:
-		vc.regComp("ML", arraySort(sInt, sInt))
-		ml := vc.cur(st, "ML")
+		mh0, _, _, _ := vc.mapComps(t.Underlying().(*types.Map))
+		ml := vc.cur(st, mlOf(mh0))
 		return and("(<= 0 "+v+")", "(<= "+v+" "+vc.alloc(st)+")", "(<= 0 "+sel(ml, v)+")", "(<= "+sel(ml, v)+" 9223372036854775807)", eq(sel(ml, "0"), "0"))
 	case *types.Signature, *types.Chan:
 		return and("(<= 0 "+v+")", "(<= "+v+" "+vc.alloc(st)+")")
